@@ -56,10 +56,19 @@ Definition c16_agrees (c : c16_case) : bool :=
 
 (* C16 on the implementation's results *)
 Definition strip_nil_values (ob : raw_observation) : raw_observation := ob.
+(* the rejections C16 documents for the observation decoder, read off the raw bytes independently of the decoder model:
+   a removal id listed twice (anywhere in the list, not only adjacent), a negative legacy timestamp with the new field unset *)
+Definition obs_documented_rejections (bs : list Z) (dec : res raw_observation) : bool :=
+  match parse_fields bs with
+  | Some fs =>
+      (match repeated_u32 4 fs with Some l => if has_dup l then is_err dec else true | None => true end) &&
+      (if (last_varint 7 fs =? 0) && (int64_of (last_varint 3 fs) <? 0) then is_err dec else true)
+  | None => true
+  end.
 Definition c16_spec_ok (c : c16_case) : bool :=
   match c with
   | KObs (Some ob) _ dec _ _ => match dec with Ok ob' => raw_obs_eqb ob ob' | _ => false end   (* round trip *)
-  | KObs None _ dec _ _ => negb (is_panic dec)
+  | KObs None bs dec _ _ => negb (is_panic dec) && obs_documented_rejections bs dec
   | KSval v (Ok _) dec => match dec with Ok v' => sval_eqb v v' | _ => (2 <? sval_depth v)%nat end
   | KSval _ _ dec => negb (is_panic dec)
   | KSvalRaw _ _ dec => negb (is_panic dec)
